@@ -72,6 +72,84 @@ TF_UNIT = Unit("C04.try_from", TF, tf_setup, post=[Clause("C04.try_from.result",
                             "a frame's f_back is None or a frame"])
 
 
+# ------------------------------------------------------------------------------------------------ get_true_caller
+GTC = G + "get_true_caller"
+from pyvc.exec import str_startswith  # noqa: E402
+
+
+def gtc_setup(ex, p):
+    start = sym_ref(p, "getframe1", "frame")
+    p.pc.append(anc(start.t, 0) == start.t)
+    wrapper = sym_ref(p, "functools_singledispatch_wrapper", "code")
+    def getframe(ex_, p_, args, kw, node):
+        ex_.oblig("C04.true_caller.starts_at_own_caller", "clause", p_, And(len(args) == 1, args[0].t == mkint(1)) if len(args) == 1 else BoolVal(False))
+        return [("ok", p_, start)]
+    def dict_get_name(ex_, p_, args, kw, node):
+        # f_globals.get("__name__", ""): the module name of the frame (a str), "" if the globals have none
+        d = args[0]
+        r = modname_of(d.t)
+        p_.pc.append(is_exact_kind(r, "str"))
+        return [("ok", p_, SV(r, ty="str"))]
+    ex.unit.bindings["sys._getframe"] = getframe
+    ex.unit.bindings["functools_singledispatch_wrapper"] = wrapper
+    ex.unit.methods[("globals_dict", "get")] = dict_get_name
+    ex.unit_args = dict(start=start, wrapper=wrapper)
+    return ex.unit_args
+
+
+modname_of = Function("modname_of", Val, Val)            # f_globals.get("__name__", "")
+
+
+def skipped(ex, p, H, f, wrapper):
+    """the frames get_true_caller walks past: code of the stackscope package outside its tests, and singledispatch's wrapper"""
+    name = modname_of(H.getf(f, "f_globals"))
+    return Or(And(str_startswith(name, ex.const(p, "stackscope.").t), Not(str_startswith(name, ex.const(p, "stackscope._tests.").t))),
+              H.getf(f, "f_code") == wrapper)
+
+
+def gtc_inv():
+    def setup(ctx):
+        ctx.p.ghost["gtc_n"] = IntVal(0)
+    def qf(ctx):
+        cur = ctx.v("caller")
+        n = ctx.p.ghost.get("gtc_n")
+        return And(n >= 0, cur == anc(ctx.ex.unit_args["start"].t, n), Or(Val.is_none(cur), And(is_kind(cur, "frame"), Val.a(cur) >= 0)))
+    def ghost_havoc(ctx):
+        ctx.p.ghost["gtc_n"] = fresh_int("gtc_n")
+    def defs(ctx):
+        cur = ctx.v("caller")
+        n = ctx.p.ghost["gtc_n"]
+        fb = ctx.H.getf(cur, "f_back")
+        return And(anc(ctx.ex.unit_args["start"].t, n + 1) == fb,
+                   Implies(is_kind(cur, "frame"), Or(Val.is_none(fb), And(is_kind(fb, "frame"), Val.a(fb) >= 0))))
+    return Inv("C04.true_caller.walk", qf=qf, defs=defs, ghost_havoc=ghost_havoc, setup=setup,
+               steps=[("C04.true_caller.only_skips_own_and_singledispatch_frames",
+                       lambda ctx: skipped(ctx.ex, ctx.p, ctx.H, anc(ctx.ex.unit_args["start"].t, ctx.p.ghost["gtc_n"] - 1), ctx.ex.unit_args["wrapper"].t))])
+
+
+def gtc_before_iter_end(ex, n, p):
+    # ghost: one more ancestor has been walked past when `caller = caller.f_back` executes
+    if isinstance(n, ast.Assign) and ast.unparse(n).replace(" ", "") == "caller=caller.f_back" and "gtc_n" in p.ghost:
+        p.ghost["gtc_n"] = p.ghost["gtc_n"] + 1
+
+
+def gtc_post(ctx):
+    r = ctx.result.t
+    n = ctx.p.ghost["gtc_n"]
+    start, wrapper = ctx.args["start"].t, ctx.args["wrapper"].t
+    return And(r == anc(start, n), is_kind(r, "frame"), Not(skipped(ctx.ex, ctx.p, ctx.H, r, wrapper)))
+
+
+GTC_UNIT = Unit("C04.get_true_caller", GTC, gtc_setup,
+                post=[Clause("C04.true_caller.first_foreign_frame", gtc_post)],
+                bindings=dict(EXTRACT_BINDINGS), methods=dict(STD_METHODS), known_classes=KNOWN,
+                invariants={(GTC, "while#1"): gtc_inv()}, before_stmt=gtc_before_iter_end,
+                field_types={"f_globals": "globals_dict"},
+                allowed_raise=lambda ctx: is_kind(ctx.exc.t, "AssertionError"),
+                assumptions=["ghost fback_anc(x, n) is the n-th f_back ancestor (introduced by its defining equations)",
+                             "f_globals.get('__name__', '') is a str; str.startswith is an opaque but functional predicate"])
+
+
 # ------------------------------------------------------------------------------------------------ index / slice block
 def select_slice_block(fi):
     """the `try: from_idx ... except ValueError: pass else: frames = this_thread_frames[to_idx:from_idx:-1]` statement"""
@@ -198,4 +276,4 @@ SINCE_UNIT = Unit("C04.extract_since", EX + "extract_since", since_setup, post=[
                   allowed_raise=lambda ctx: And(is_kind(ctx.exc.t, "TypeError"), Not(Val.is_none(ctx.args["outer"].t)),
                                                 Not(is_kind(ctx.args["outer"].t, "frame"))))
 
-UNITS = [TF_UNIT, SLICE_UNIT, LIMIT_UNIT, SINCE_UNIT]
+UNITS = [TF_UNIT, GTC_UNIT, SLICE_UNIT, LIMIT_UNIT, SINCE_UNIT]
